@@ -17,9 +17,11 @@ VERIF = Path(__file__).resolve().parent.parent
 COQ = VERIF / "coq"
 GEN = COQ / "generated"
 CASES = COQ / "cases"
-EVID = VERIF / "evidence"
-REPLAYS = VERIF / "replays"
 REPO = Path(os.environ.get("VERIF_REPO", "/repo"))
+# the committed evidence describes runs against /repo itself; a run against another tree (VERIF_REPO, used to try
+# seeded changes) writes its evidence elsewhere
+EVID = VERIF / "evidence" if str(REPO) == "/repo" else Path("/tmp/verif_evidence_other_tree")
+REPLAYS = VERIF / "replays"
 PY = "/venv/bin/python"
 NPROC = int(os.environ.get("VERIF_JOBS", "16"))
 
